@@ -128,6 +128,18 @@ def step (s : St) (pre post : List String) : St × Verdict :=
           else if charged = 0 then some p.bank
           else none
         match kind, rest with
+        | "kparam", [key0, wf, reg, vs, hs, sp] =>
+          -- the gov handler called directly at block height `hs` (no ante handler, no fee)
+          let key := if key0 = "~" then "" else key0
+          match parseVal vs, Proto.parseBool wf, Proto.parseBool reg, hs.toInt?, Proto.parseBool sp with
+          | some val, some wfb, some regb, some hi, some split =>
+            if !govSame p g && signer ≠ p.acl.getOwner key then (s', .propfail "nonowner-changed-param" line)
+            else if !balancesMatch p.bank g.bank (fun _ => 0) || g.bank.supply ≠ p.bank.supply then
+              (s', .propfail "gov-msg-moved-funds" line)
+            else
+              let o := Gov.changeParam p hi split ⟨wfb, regb⟩ key val signer
+              finish s g line codeOk o (some p.bank) true p
+          | _, _, _, _, _ => (s, .bad "kparam args")
         | "param", [key0, wf, reg, vs, fe] =>
           let key := if key0 = "~" then "" else key0
           match parseVal vs, Proto.parseBool wf, Proto.parseBool reg with
